@@ -523,7 +523,7 @@ func streamC15(c *Ctx) {
 	if !consumerErrors(c, bes) {
 		return
 	}
-	if !keySizeLimits(c) {
+	if !keySizeLimits(c) || !txnSizeLimit(c) {
 		return
 	}
 	nSets := c.N(60, 1500)
